@@ -200,3 +200,137 @@ NS = [0, 1, 2, 5]
 rows_driver(P + "head", lambda s, run: [(n,) for n in NS], lambda d, n: d.head(n), lambda d, n: list(range(min(n, d.nrow))))
 rows_driver(P + "tail", lambda s, run: [(n,) for n in NS], lambda d, n: d.tail(n),
             lambda d, n: list(range(d.nrow - min(n, d.nrow), d.nrow)))
+
+
+def is_missing(x):
+    if x is None:
+        return True
+    if isinstance(x, str):
+        return x == ""
+    if isinstance(x, (np.datetime64, np.timedelta64)):
+        return bool(np.isnat(x))
+    try:
+        return bool(x != x)
+    except Exception:
+        return False
+
+
+KALL = ("int", "float", "str", "date")
+rows_driver(P + "drop_na[one column]", lambda s, run: [(s[0][0],)], lambda d, k: d.drop_na(k),
+            lambda d, k: [i for i in range(d.nrow) if not is_missing(d[k][i])], kinds=KALL)
+rows_driver(P + "drop_na[two columns]", lambda s, run: [(s[0][0], s[1][0])] if len(s) > 1 else [],
+            lambda d, k1, k2: d.drop_na(k1, k2),
+            lambda d, k1, k2: [i for i in range(d.nrow) if not (is_missing(d[k1][i]) or is_missing(d[k2][i]))], kinds=KALL)
+
+
+@driver(P + "sample")
+def sample_driver(run):
+    run.bound = "frames with one int column 0..n-1, n <= 4; sample sizes 0..5; 5 seeds"
+    gen = ((n, k, seed) for n in range(5) for k in range(6) for seed in range(5))
+    for n, k, seed in run.inputs(gen):
+        df = DataFrame(i=list(range(n)), s=[str(x) for x in range(n)])
+        np.random.seed(seed + run.seed)
+        got = df.sample(k)
+        idx = list(got.i) if isinstance(got, DataFrame) else None
+        ok = isinstance(got, DataFrame) and len(idx) == min(k, n) and idx == sorted(set(idx)) and all(0 <= x < n for x in idx) \
+            and list(got.s) == [str(x) for x in idx] and not np.shares_memory(got.i, df.i)
+        run.check([n, k, seed], ok, expected=f"{min(k, n)} distinct rows in order", got=idx, clause="sample")
+
+
+def key_of(d, ks, i):
+    return tuple(None if is_missing(d[k][i]) else d[k][i].item() if hasattr(d[k][i], "item") else d[k][i] for k in ks)
+
+
+def first_rows(d, ks):
+    seen, out = [], []
+    for i in range(d.nrow):
+        key = key_of(d, ks, i)
+        if not any(key == s for s in seen):
+            seen.append(key)
+            out.append(i)
+    return out
+
+
+rows_driver(P + "unique[one key column]", lambda s, run: [(s[0][0],)], lambda d, k: d.unique(k),
+            lambda d, k: first_rows(d, [k]), kinds=KALL)
+rows_driver(P + "unique[two key columns]", lambda s, run: [(s[0][0], s[1][0])] if len(s) > 1 else [],
+            lambda d, k1, k2: d.unique(k1, k2), lambda d, k1, k2: first_rows(d, [k1, k2]), kinds=KALL)
+
+
+# ---- C09 ------------------------------------------------------------------------------------------
+def frame_equals(got, exp_cols):
+    """exp_cols: list of (name, Vector)"""
+    if not isinstance(got, DataFrame) or got.colnames != [n for n, _ in exp_cols]:
+        return False
+    return all(col_eq(got[n], v) and isinstance(got[n], DataFrameColumn) for n, v in exp_cols)
+
+
+def no_shared(got, *inputs):
+    for c in got.colnames:
+        for inp in inputs:
+            cols = inp.columns if isinstance(inp, DataFrame) else [inp]
+            if any(np.shares_memory(got[c], x) for x in cols):
+                return False
+    return True
+
+
+def frame_driver(name, gen, call, expect, kinds=("int", "float", "str"), ncols=(1, 2)):
+    @driver(name)
+    def _d(run):
+        run.bound = B(run)
+        g = ((spec,) + tuple(a) for spec in frames(maxrow(run), kinds, ncols) for a in gen(spec, run))
+        for inp in run.inputs(g):
+            spec = [tuple(x) for x in inp[0]]
+            args = inp[1:]
+            df = build(spec)
+            before = snapshot(df)
+            try:
+                got, others = call(df, *args)
+                exp = expect(df, *args)
+                ok = frame_equals(got, exp) and snapshot(df) == before and no_shared(got, df, *others)
+                obs = {c: list(got[c]) for c in got.colnames} if isinstance(got, DataFrame) else got
+            except Exception as e:
+                ok, obs, exp = False, f"raised {type(e).__name__}: {e}", None
+            run.check(list(inp), ok, expected=[(n, list(v)) for n, v in exp] if exp else None, got=obs,
+                      clause="expected columns/order/values, inputs unchanged, no shared memory")
+    return _d
+
+
+frame_driver(P + "select[two columns]", lambda s, run: [()] if len(s) > 1 else [],
+             lambda d: (d.select("c1", "c0"), []), lambda d: [("c1", d.c1), ("c0", d.c0)])
+frame_driver(P + "unselect[two columns]", lambda s, run: [("c0", "zz"), ("c1", "c0")],
+             lambda d, a, b: (d.unselect(*[x for x in (a, b) if x in d]), []),
+             lambda d, a, b: [(n, d[n]) for n in d.colnames if n not in (a, b)])
+
+
+def other_frames(spec, run):
+    n = nrow_of(spec)
+    vals = enc(POOLS["float"])[:1] * n
+    return [([("c0", "float", vals)],), ([("z", "float", vals), ("c1", "float", vals)],)]
+
+
+frame_driver(P + "update", other_frames, lambda d, o: (lambda od: (d.update(od), [od]))(build([tuple(x) for x in o])),
+             lambda d, o: (lambda od: [(n, d[n]) for n in d.colnames if n not in od] + [(n, od[n]) for n in od.colnames])(build([tuple(x) for x in o])))
+
+
+def modify_expect(d, name, vec):
+    cols = [(n, d[n]) for n in d.colnames]
+    if name in d:
+        return [(n, vec if n == name else v) for n, v in cols]
+    return cols + [(name, vec)]
+
+
+def mvals(spec, run):
+    n = nrow_of(spec)
+    return [(nm, enc([0.5] * n)) for nm in ("c0", "new")]
+
+
+frame_driver(P + "modify[vector value]", mvals,
+             lambda d, nm, v: (lambda vec: (d.modify(**{nm: vec}), [vec]))(Vector(dec(v), float)),
+             lambda d, nm, v: modify_expect(d, nm, Vector(dec(v), float)))
+frame_driver(P + "modify[value is a column of another frame]", mvals,
+             lambda d, nm, v: (lambda od: (d.modify(**{nm: od.x}), [od]))(DataFrame(x=Vector(dec(v), float))),
+             lambda d, nm, v: modify_expect(d, nm, Vector(dec(v), float)))
+frame_driver(P + "modify[callable value]", mvals,
+             lambda d, nm, v: (lambda od: (d.modify(**{nm: lambda x: od.x}), [od]))(DataFrame(x=Vector(dec(v), float))),
+             lambda d, nm, v: modify_expect(d, nm, Vector(dec(v), float)))
